@@ -1115,8 +1115,8 @@ pub fn run(ctx: &mut Ctx) {
 	ctx.assume("raw stack map frames use the ranges their variants can express (SameFrame offset <= 63, Chop k in 1..=3, Append 1..=3 locals)");
 	ctx.assume("attribute_name_index of a raw attribute points at the Utf8 entry with the matching name (the crate dispatches on it); unknown attributes use a name the crate does not model");
 	let bytes_strategy = || (class_stream(), choices(), prop_oneof![3 => Just(true), 1 => Just(false)], crate::classfile::gen::big_choice()).prop_map(|(stream, ch, strip_wide, big)| BytesCase { stream, ch, strip_wide, big });
-	ctx.run_sub("bytes_roundtrip", ctx.tier.pick(32000, 1600000), bytes_strategy, wellformed);
-	ctx.run_sub("raw_value_roundtrip", ctx.tier.pick(48000, 2400000), || (proptest::collection::vec(any::<u8>(), 0..600), prop_oneof![3 => Just(false), 1 => Just(true)]).prop_map(|(stream, wide)| RawCase { stream, wide }), raw_value);
-	ctx.run_sub("cross_read", ctx.tier.pick(16000, 800000), bytes_strategy, cross_read);
+	ctx.run_sub("bytes_roundtrip", ctx.tier.pick(96000, 1600000), bytes_strategy, wellformed);
+	ctx.run_sub("raw_value_roundtrip", ctx.tier.pick(144000, 2400000), || (proptest::collection::vec(any::<u8>(), 0..600), prop_oneof![3 => Just(false), 1 => Just(true)]).prop_map(|(stream, wide)| RawCase { stream, wide }), raw_value);
+	ctx.run_sub("cross_read", ctx.tier.pick(48000, 800000), bytes_strategy, cross_read);
 	corpus(ctx);
 }
